@@ -14,9 +14,9 @@ import (
 
 type Case struct {
 	Coq        string `json:"-"`
-	Desc       any    `json:"desc"`            // human/replay description: inputs and what the implementation did
-	Class      string `json:"class"`           // coverage class (for the distribution histogram)
-	Nontrivial bool   `json:"nontrivial"`      // by the stream's stated rule
+	Desc       any    `json:"desc"`             // human/replay description: inputs and what the implementation did
+	Class      string `json:"class"`            // coverage class (for the distribution histogram)
+	Nontrivial bool   `json:"nontrivial"`       // by the stream's stated rule
 	OracleFail string `json:"oracle,omitempty"` // implementation-side property oracle failed: what
 	Known      string `json:"known,omitempty"`  // id of a known finding this case is an instance of
 	Index      int    `json:"index"`
